@@ -16,7 +16,13 @@ def main():
         res = []
         for w in words:
             try:
-                res.append([m.name for m in f(w)])
+                r = f(w)
+                names = [m.name for m in r]
+                # the decoders test membership in the result and print it afterwards: it must read the same twice
+                if [m.name for m in r] != names:
+                    res.append({'err': 'ResultCanBeReadOnlyOnce:' + type(r).__name__, 'first_read': names})
+                else:
+                    res.append(names)
             except Exception as ex:
                 res.append({'err': type(ex).__name__})
         out.append(res)
